@@ -46,7 +46,7 @@ def Hook.apply (h : Hook) (v : GoVal) : RV :=
   | .identity => some v
   | .unwrap =>
     match stripIP v with
-    | some (.struct "Wrap" ((_, f) :: _)) => some f
+    | some (.struct "main.Wrap" ((_, f) :: _)) => some f
     | _ => some v
   | .const42 => some (.int .int "" 42)
   | .nilret => none
